@@ -459,7 +459,9 @@ def norm_xy(
     _mean = pts.mean(axis=0)
     XX = np.subtract(pts, _mean, out=out)
 
-    sx = (((XX**2).sum(axis=1) * 0.5) ** -0.5).mean()
+    # sqrt(2)/<mean distance>, and not mean of inverse distances: that is
+    # infinite when any point sits exactly at the mean (regular grids)
+    sx = np.sqrt(2) / np.sqrt((XX**2).sum(axis=1)).mean()
     XX *= sx
 
     tx, ty = -_mean * sx
